@@ -15,7 +15,7 @@
    The reference model's predictions (Console.tla's `sent` and `results` for
    this very behaviour) arrive in the reset event and are compared with what
    the code did. *)
-EXTENDS Wire, Json, IOUtils, TLC, FiniteSets
+EXTENDS Wire, Json, IOUtils, TLC, FiniteSets, MetricsLaw
 
 Trace == ndJsonDeserialize(IOEnv.VERIF_TRACE)
 Cfg   == JsonDeserialize(IOEnv.VERIF_TRACECFG)      \* [integLen, bmcSid, cmds, known]
@@ -40,13 +40,18 @@ VARIABLES l,        \* next event
           firstRaw, \* first transmission of the current call (session-less retransmissions must equal it)
           ivs,      \* IVs used so far in this script
           pred,     \* the reference model's prediction for this script
-          insess    \* this script runs inside a session
-vars == <<l, viol, seqN, txN, callN, cur, att, kinds, lastRx, dead, firstRaw, ivs, pred, insess>>
+          insess,   \* this script runs inside a session
+          prevM,    \* previous metrics snapshot (C18), or NoEv
+          mcall     \* what happened since then: [kind, name, err, ntx, codes]
+vars == <<l, viol, seqN, txN, callN, cur, att, kinds, lastRx, dead, firstRaw, ivs, pred, insess, prevM, mcall>>
 
 NoEv == [ev |-> "none"]
 NoPred == [sent |-> <<>>, results |-> <<>>, insess |-> FALSE]
+NoCall == [kind |-> "none", name |-> "", err |-> FALSE, ntx |-> 0, codes |-> <<>>]
+DialCall == [NoCall EXCEPT !.kind = "dial"]
 Init == /\ l = 1 /\ viol = {} /\ seqN = 0 /\ txN = 0 /\ callN = 0 /\ cur = "none" /\ att = 0 /\ kinds = {}
         /\ lastRx = NoEv /\ dead = FALSE /\ firstRaw = <<>> /\ ivs = {} /\ pred = NoPred /\ insess = FALSE
+        /\ prevM = NoEv /\ mcall = NoCall
 
 Ev == Trace[l]
 Has(r, f) == f \in DOMAIN r
@@ -57,22 +62,31 @@ Reset == /\ Ev.ev = "reset"
          /\ dead' = FALSE /\ firstRaw' = <<>> /\ ivs' = {}
          /\ pred' = IF Has(Ev, "abstract") THEN Ev.abstract ELSE NoPred
          /\ insess' = IF Has(Ev, "abstract") THEN Ev.abstract.insess ELSE FALSE
+         /\ prevM' = NoEv /\ mcall' = NoCall
 Call  == /\ Ev.ev = "call"
          /\ callN' = callN + 1 /\ cur' = Ev.label /\ att' = 0 /\ kinds' = {} /\ lastRx' = NoEv /\ dead' = FALSE
          /\ firstRaw' = <<>>
-         /\ UNCHANGED <<seqN, txN, ivs, pred, insess>>
+         /\ mcall' = [kind |-> "command", name |-> CmdTab[Ev.label].name, err |-> FALSE, ntx |-> 0, codes |-> <<>>]
+         /\ UNCHANGED <<seqN, txN, ivs, pred, insess, prevM>>
 Tx    == /\ Ev.ev = "tx"
          /\ txN' = txN + 1 /\ att' = att + 1 /\ seqN' = IF insess THEN seqN + 1 ELSE seqN
          /\ firstRaw' = IF att = 0 THEN Ev.raw ELSE firstRaw
          /\ ivs' = IF insess /\ Len(Ev.raw) >= 32 THEN ivs \cup {Sub(Ev.raw, 16, 32)} ELSE ivs
-         /\ UNCHANGED <<callN, cur, kinds, lastRx, dead, pred, insess>>
+         /\ mcall' = [mcall EXCEPT !.ntx = @ + 1]
+         /\ UNCHANGED <<callN, cur, kinds, lastRx, dead, pred, insess, prevM>>
+\* a datagram the specification counts as a valid response to the current command (Console!Accept)
+ValidRsp(e) == /\ Has(e, "attrs") /\ e.attrs.dec /\ e.attrs.forCmd = cur
+               /\ (insess => (e.attrs.sig /\ e.attrs.flag /\ e.attrs.sid = "mine"))
 RxClass(e) == IF Has(e, "timeout") THEN "timeout" ELSE IF Has(e, "xerr") THEN "xerr"
               ELSE IF Has(e, "attrs") THEN e.attrs.kind \o (IF e.attrs.kind = "final" THEN "-" \o e.attrs.cc ELSE "") ELSE "unknown"
 Rx    == /\ Ev.ev = "rx"
          /\ lastRx' = Ev /\ kinds' = kinds \cup {RxClass(Ev)}
          /\ dead' = (dead \/ Has(Ev, "timeout") \/ Has(Ev, "xerr"))
-         /\ UNCHANGED <<seqN, txN, callN, cur, att, firstRaw, ivs, pred, insess>>
+         /\ mcall' = IF ValidRsp(Ev) THEN [mcall EXCEPT !.codes = Append(@, CcByte(Ev.attrs.cc))] ELSE mcall
+         /\ UNCHANGED <<seqN, txN, callN, cur, att, firstRaw, ivs, pred, insess, prevM>>
 Other == /\ Ev.ev \notin {"reset", "call", "tx", "rx"}
+         /\ mcall' = (IF Ev.ev = "ret" /\ Has(Ev, "err") THEN [mcall EXCEPT !.err = Ev.err] ELSE IF Ev.ev = "metrics" THEN (IF Ev.at = "start" THEN DialCall ELSE NoCall) ELSE mcall)
+         /\ prevM' = (IF Ev.ev = "metrics" THEN Ev.m ELSE prevM)
          /\ UNCHANGED <<seqN, txN, callN, cur, att, kinds, lastRx, dead, firstRaw, ivs, pred, insess>>
 Step == Reset \/ Call \/ Tx \/ Rx \/ Other
 
@@ -143,6 +157,10 @@ NewViol == LET e == Ev IN
   ELSE IF e.ev = "ret" THEN RetViol(e)
   ELSE IF e.ev = "session" THEN Check("C01", "keys-agree", e.have /\ e.sikOK /\ e.k1OK /\ e.k2OK)
   ELSE IF e.ev \in {"harnessError", "prefixFailed"} THEN Check("HARNESS", e.ev, FALSE)
+  ELSE IF e.ev = "metrics" /\ prevM # NoEv /\ mcall.kind # "none"
+       THEN LET bad == BadKeys(prevM, e.m, mcall) IN
+            IF bad = {} THEN {} ELSE {[prop |-> "C18", pred |-> "counters-change-by-exactly-what-happened",
+                                       ctx |-> [keys |-> bad, err |-> mcall.err, ntx |-> IF mcall.ntx > 2 THEN 3 ELSE mcall.ntx]]}
   ELSE {}
 
 IsKnown(v) == \E i \in 1..Len(Known) : LET k == Known[i] IN k.prop = v.prop /\ k.pred = v.pred
